@@ -169,6 +169,7 @@ def build_driver(ctx, name, pkg, files, tags="verif", race=False):
 def run_driver(ctx, binary, testname, env=None, timeout=1200, cwd=None, allow_fail=False):
     """Run one Test function of the driver binary; env carries VF_* parameters."""
     e = go_env()
+    e.setdefault("JAM_FUZZ", "1")     # in-memory repositories only (internal/fuzzenv)
     e.update({k: str(v) for k, v in (env or {}).items()})
     cmd = [binary, "-test.run", "^%s$" % testname, "-test.v", "-test.timeout", "%ds" % timeout]
     try:
@@ -245,7 +246,7 @@ class TLCResult:
         return "\n".join(self.out.splitlines()[-n:])
 
 
-def tlc(ctx, workdir, module, cfg, workers=4, timeout=600, heap="4g", extra=(), coverage=False, dfs=False, stack="64m"):
+def tlc(ctx, workdir, module, cfg, workers=4, timeout=600, heap="4g", extra=(), coverage=False, dfs=False, stack="512m"):
     """Run TLC on `module` in workdir (specs must be staged there); cfg is text."""
     cfgp = os.path.join(workdir, module + ("_%d" % (abs(hash(cfg)) % 10**8)) + ".cfg")
     with open(cfgp, "w") as f:
@@ -307,9 +308,9 @@ def mc(ctx, module, cfg, workers=8, timeout=900, heap="8g", coverage=False, expe
     return res
 
 
-def gen_cases(ctx, module, constants, outfile="cases.ndjson", timeout=600, heap="4g", raw=""):
+def gen_cases(ctx, module, constants, outfile="cases.ndjson", timeout=600, heap="4g", raw="", tag=""):
     """Run a *_Gen module whose ASSUME writes `OutFile` with ndJsonSerialize; returns list of cases."""
-    wd = ctx.sub("gen-" + module)
+    wd = ctx.sub("gen-" + module + tag)
     stage_specs(wd)
     outp = os.path.join(wd, outfile)
     c = dict(constants)
@@ -327,7 +328,7 @@ def _validate_shard(args):
     cfgp = os.path.join(wd, "shard.cfg")
     open(cfgp, "w").write(cfgtxt)
     meta = os.path.join(wd, "meta")
-    cmd = ["timeout", str(timeout), "java", "-XX:+UseParallelGC", "-Xmx" + heap, "-Xss64m"]
+    cmd = ["timeout", str(timeout), "java", "-XX:+UseParallelGC", "-Xmx" + heap, "-Xss512m"]
     if dfs:
         cmd.append("-Dtlc2.tool.queue.IStateQueue=StateDeque")
     cmd += ["-cp", TLA_CP, "tlc2.TLC", "-metadir", meta, "-workers", "1", "-config", cfgp, module]
